@@ -252,15 +252,25 @@ Proof. vm_compute. reflexivity. Qed.
 
 Definition vt_ops (r : vt_result) : list op := match r with VOk o _ | VErr o => o end.
 
+(** every usize subtraction of validate_type (operands as extracted from the source, Gen.validate_type_subs)
+    is guarded by the comparison of its match arm *)
+Lemma vt_unplaced_nil : vt_unplaced = [].
+Proof. vm_compute. reflexivity. Qed.
+
+Ltac vt_sub_ok := cbn [all_ok forallb op_ok andb]; rewrite ?andb_true_r;
+                  repeat (apply andb_true_intro; split); try reflexivity; apply Nat.leb_le; lia.
+
 Lemma validate_type_arith_safe n ty : all_ok (vt_ops (validate_type n ty)) = true.
 Proof.
-  unfold validate_type. destruct ty as [k|].
+  unfold validate_type. rewrite vt_unplaced_nil. destruct ty as [k|].
   - destruct (1 <? n) eqn:E1; [|destruct ((n =? 1) && (k =? 0)); reflexivity].
-    destruct (Nat.compare_spec n k) as [H|H|H]; cbn [vt_ops all_ok forallb op_ok]; try reflexivity.
-    + assert (Hle : (n <=? k) = true) by (apply Nat.leb_le; lia). rewrite Hle. reflexivity.
-    + assert (Hle : (k <=? n) = true) by (apply Nat.leb_le; lia). rewrite Hle. reflexivity.
-  - destruct (1 <? n) eqn:E1; [|reflexivity]. apply Nat.ltb_lt in E1. cbn [vt_ops all_ok forallb op_ok].
-    assert (Hle : (1 <=? n) = true) by (apply Nat.leb_le; lia). rewrite Hle. reflexivity.
+    destruct (Nat.compare_spec n k) as [H|H|H]; cbn [vt_ops app]; try reflexivity.
+    + (* Less: self.len() < elems.len() *)
+      unfold vt_subs. cbn [validate_type_subs flat_map vt_branch_eqb vt_eval app]. vt_sub_ok.
+    + (* Greater: self.len() > elems.len() *)
+      unfold vt_subs. cbn [validate_type_subs flat_map vt_branch_eqb vt_eval app]. vt_sub_ok.
+  - destruct (1 <? n) eqn:E1; [|reflexivity]. apply Nat.ltb_lt in E1. cbn [vt_ops app].
+    unfold vt_subs. cbn [validate_type_subs flat_map vt_branch_eqb vt_eval app]. vt_sub_ok.
 Qed.
 
 Lemma from_expand_fields_unit_arm_unreachable fk : all_ok (expand_fields_ops fk) = true.
